@@ -113,5 +113,20 @@ def main():
         json.dump(summary, open(os.path.join(base, 'RESULTS.json'), 'w'), indent=1)
 
 
+def evalrefactors():
+    base = os.path.join(HERE, 'seeded', 'refactors')
+    res = {}
+    for f in sorted(os.listdir(base)):
+        if not f.endswith('.diff'):
+            continue
+        r = evaluate(os.path.join(base, f))
+        res[f] = r.get('fired', {}) or r.get('error') or {}
+        print(f, 'SILENT' if not r.get('fired') and not r.get('error') else 'ALARM %s' % {k: v[:2] for k, v in r.get('fired', {}).items()}, r.get('error') or '')
+    json.dump(res, open(os.path.join(base, 'RESULTS.json'), 'w'), indent=1)
+
+
 if __name__ == '__main__':
-    main()
+    if sys.argv[1] == 'evalrefactors':
+        evalrefactors()
+    else:
+        main()
